@@ -268,6 +268,10 @@ func (r *SparseFloat32Matrix) Jacobian(f func(ConstVector) ConstVector, x_ Magic
      m = x.Dim()
     *r = *NullSparseFloat32Matrix(n, m)
   }
+  // entries that are not overwritten below are zero
+  for it := r.Iterator(); it.Ok(); it.Next() {
+    it.Get().Reset()
+  }
   // copy derivatives
   for i := 0; i < n; i++ {
     for j := 0; j < m; j++ {
@@ -291,6 +295,10 @@ func (r *SparseFloat32Matrix) Hessian(f func(ConstVector) ConstScalar, x_ MagicV
   x.Variables(2)
   // evaluate function
   y := f(x)
+  // entries that are not overwritten below are zero
+  for it := r.Iterator(); it.Ok(); it.Next() {
+    it.Get().Reset()
+  }
   // copy second derivatives
   for i := 0; i < n; i++ {
     for j := 0; j < m; j++ {
